@@ -207,8 +207,6 @@ def read_list(t, delim, i=0, module=None):
         i, q = kg_read(t, i, read_neg=True, ignore_newline=True, module=module)
         if q is None:
             break
-        if safe_eq(q, '['):
-            i, q = read_list(t, ']', i=i, module=module)
         arr.append(q)
         i = skip(t, i, ignore_newline=True)
     if cmatch(t, i, delim):
